@@ -54,6 +54,17 @@ Theorem C16_unnest_item_disjunction : forall h dom x id t, Nat.eqb id x = false 
 Proof. intros. apply unnest_item_disjunction; assumption. Qed.
 Print Assumptions C16_unnest_item_disjunction.
 
+(* the same disjunction with the PARENT alone selected: one row per qualifying element - a parent that qualifies through its
+   second element only is still delivered (the shape of the defect repaired by 448bd07) *)
+Theorem C16_unnest_parent_disjunction : forall h dom x id t, Nat.eqb id x = false -> t1 x t = true -> mentions t = true ->
+  forall m1 o1 w1 m2 o2 w2,
+  run_query h dom [TVar x]
+    (Some (CElseIf (CCmp o1 (TMap m1 (TFlat id t)) (TLit w1)) (CCmp o2 (TMap m2 (TFlat id t)) (TLit w2))))
+  = flat_map (fun v => map (fun _ => [v])
+                           (filter (fun e => apply_op o1 (apply_map h m1 e) w1 || apply_op o2 (apply_map h m2 e) w2) (inner h x t v))) (dom x).
+Proof. intros. apply unnest_parent_disjunction; assumption. Qed.
+Print Assumptions C16_unnest_parent_disjunction.
+
 Example C16_where_nonvacuous :
   let h := [[VTup [AInt 1; AInt 2]; VInt 0]; [VTup []; VInt 1]; [VTup [AInt 2; AInt 2; AInt 0]; VInt 1]; [VInt 7; VInt 0]] in
   let dom := fun k : key => if Nat.eqb k 1 then [VObj 0; VObj 1; VObj 2; VObj 3] else [] in
